@@ -5,22 +5,25 @@
    C04_system_own_reply its results do not depend on the schedule, and the real program's
    must be the same. *)
 From Amq Require Export Lib.Base Model.Sys.
+From Coq Require Import Bool.
 
 (* shared with the harness (c04sys.rs) *)
 Definition answer (n r : N) : N := (n * 7919 + r * 104729 + 13) mod 1000003.
 
 (* channel id, program, what the calls returned, what the broker saw on that channel, whether a
-   call failed *)
-Definition chanrec := (N * list call * list N * list call * bool)%type.
+   call failed, and whether the server closes the channel (C09): Some (k, false) - instead of
+   answering the k-th synchronous request; Some (k, true) - right behind its answer to it *)
+Definition chanrec := (N * list call * list N * list call * bool * option (N * bool))%type.
 (* mailbox bound, channels, a schedule seed for the model, hung, close() = Ok, the broker could
    not parse the client's stream, the server went away (end of stream) at some point *)
 Definition case := (N * list chanrec * list N * bool * bool * bool * bool)%type.
 
-Definition cr_id (c : chanrec) : N := let '(n, _, _, _, _) := c in n.
-Definition cr_prog (c : chanrec) : list call := let '(_, p, _, _, _) := c in p.
-Definition cr_results (c : chanrec) : list N := let '(_, _, r, _, _) := c in r.
-Definition cr_seen (c : chanrec) : list call := let '(_, _, _, s, _) := c in s.
-Definition cr_failed (c : chanrec) : bool := let '(_, _, _, _, f) := c in f.
+Definition cr_id (c : chanrec) : N := let '(n, _, _, _, _, _) := c in n.
+Definition cr_prog (c : chanrec) : list call := let '(_, p, _, _, _, _) := c in p.
+Definition cr_results (c : chanrec) : list N := let '(_, _, r, _, _, _) := c in r.
+Definition cr_seen (c : chanrec) : list call := let '(_, _, _, s, _, _) := c in s.
+Definition cr_failed (c : chanrec) : bool := let '(_, _, _, _, f, _) := c in f.
+Definition cr_close (c : chanrec) : option (N * bool) := let '(_, _, _, _, _, k) := c in k.
 
 Fixpoint progs_of (cs : list chanrec) (n : N) : list call :=
   match cs with
@@ -63,15 +66,46 @@ Definition schedule (c : case) : list act :=
 
 Definition c_reply_cap : N := 2.
 
+Fixpoint close_of (cs : list chanrec) (n : N) : option (N * bool) :=
+  match cs with
+  | [] => None
+  | c :: cs' => if cr_id c =? n then cr_close c else close_of cs' n
+  end.
+
+(* how many synchronous requests of channel n the server has answered (while it has not closed n) *)
+Definition answered (s : sys) (n : N) : N :=
+  N.of_nat (length (syncs (projc n (y_seen s))) - length (yc_pend (y_ch s n))).
+
+(* the server's side of the schedule follows the scenario: where the real broker closed the
+   channel, the model's server does - each step below is one or two steps of ystep, so the run
+   is a yrun and the system theorems speak about it *)
+Definition pstep (cs : list chanrec) (bound : N) (s : sys) (a : act) : sys :=
+  let st := ystep answer bound c_reply_cap in
+  match a with
+  | ASrvAnswer n =>
+      match close_of cs n, yc_pend (y_ch s n), yc_srv_closed (y_ch s n) with
+      | Some (k, after), _ :: _, false =>
+          if answered s n + 1 =? k then
+            if after : bool then st (st s (ASrvAnswer n)) (ASrvClose n) else st s (ASrvClose n)
+          else st s a
+      | _, _, _ => st s a
+      end
+  | _ => st s a
+  end.
+
 Definition model_final (c : case) : sys :=
   let '(bound, cs, _, _, _, _, _) := c in
-  yrun answer (N.max 1 bound) c_reply_cap (init_sys (progs_of cs)) (schedule c).
+  fold_left (pstep cs (N.max 1 bound)) (schedule c) (init_sys (progs_of cs)).
 
-Definition model_out (c : case) : list (N * list N * bool) * bool :=
+(* per channel: id, results, the caller has returned for good (finished its program, or failed),
+   failed *)
+Definition model_out (c : case) : list (N * list N * bool * bool) * bool :=
   let '(_, cs, _, _, _, _, _) := c in
   let s := model_final c in
-  (map (fun r => (cr_id r, yc_results (y_ch s (cr_id r)),
-                  match yc_prog (y_ch s (cr_id r)) with [] => negb (yc_wait (y_ch s (cr_id r))) | _ => false end)) cs,
+  (map (fun r => let ch := y_ch s (cr_id r) in
+                 (cr_id r, yc_results ch,
+                  negb (yc_wait ch) && (yc_failed ch || match yc_prog ch with [] => true | _ => false end),
+                  yc_failed ch)) cs,
    y_fail s).
 
 Definition call_eqb (a b : call) : bool :=
@@ -91,10 +125,14 @@ Definition model_agrees (c : case) : bool :=
   let '(_, cs, _, hung, _, _, died) := c in
   let '(rows, failed) := model_out c in
   negb failed && negb hung &&
-  forallb (fun '(r, (n, res, done)) =>
+  forallb (fun '(r, (n, res, done, mfailed)) =>
              done &&
              if died then is_prefix (cr_results r) res
-             else negb (cr_failed r) && list_eqb N.eqb res (cr_results r))
+             else list_eqb N.eqb res (cr_results r) &&
+                  match cr_close r with
+                  | Some (_, true) => true   (* when the next call notices depends on the schedule *)
+                  | _ => Bool.eqb mfailed (cr_failed r)
+                  end)
           (combine cs rows).
 
 (* the property itself, on what the real program did. While the server answers: nobody hung, the connection closed
@@ -111,6 +149,35 @@ Fixpoint is_prefix_calls (a b : list call) : bool :=
 (* ... and when the server goes away in the middle (C05): still nobody hangs - every caller
    returns, with an error unless it had finished -, what the calls returned before is a prefix
    of the right answers, and what the broker saw is a prefix of what was to be issued *)
+(* the program up to and including its k-th synchronous call *)
+Fixpoint upto_sync (k : nat) (p : list call) : list call :=
+  match k, p with
+  | O, _ => []
+  | _, [] => []
+  | S k', x :: p' => if is_sync x then x :: match k' with O => [] | _ => upto_sync k' p' end
+                     else x :: upto_sync k p'
+  end.
+
+(* ... and when the server closes channel n (C09) - instead of its k-th answer, or right behind
+   it: the calls of n before that returned their own answers, the call that was waiting (resp.
+   the next synchronous call) and no other failed, the broker saw n's requests as issued up to
+   there; every OTHER channel's calls all returned their own answers, and the connection closed
+   cleanly *)
+Definition chan_ok (r : chanrec) : bool :=
+  let want := map (answer (cr_id r)) (syncs (cr_prog r)) in
+  match cr_close r with
+  | None =>
+      negb (cr_failed r) && list_eqb N.eqb (cr_results r) want && list_eqb call_eqb (cr_seen r) (cr_prog r)
+  | Some (k, false) =>
+      cr_failed r && list_eqb N.eqb (cr_results r) (firstn (N.to_nat k - 1) want) &&
+      list_eqb call_eqb (cr_seen r) (upto_sync (N.to_nat k) (cr_prog r))
+  | Some (k, true) =>
+      list_eqb N.eqb (cr_results r) (firstn (N.to_nat k) want) &&
+      (if (N.to_nat k <? length want)%nat then cr_failed r else true) &&
+      (* nowait calls accepted after that may be dropped with the slot's mailbox *)
+      is_prefix_calls (upto_sync (N.to_nat k) (cr_prog r)) (cr_seen r) && is_prefix_calls (cr_seen r) (cr_prog r)
+  end.
+
 Definition oracle_ok (c : case) : bool :=
   let '(_, cs, _, hung, closed, bad, died) := c in
   negb hung && negb bad &&
@@ -120,11 +187,7 @@ Definition oracle_ok (c : case) : bool :=
                (cr_failed r || list_eqb N.eqb (cr_results r) (map (answer (cr_id r)) (syncs (cr_prog r)))) &&
                is_prefix_calls (cr_seen r) (cr_prog r)) cs
   else
-    closed &&
-    forallb (fun r =>
-               negb (cr_failed r) &&
-               list_eqb N.eqb (cr_results r) (map (answer (cr_id r)) (syncs (cr_prog r))) &&
-               list_eqb call_eqb (cr_seen r) (cr_prog r)) cs.
+    closed && forallb chan_ok cs.
 
 Fixpoint bad_idx {A} (f : A -> bool) (i : N) (l : list A) : list N :=
   match l with
